@@ -4,6 +4,7 @@ import (
 	"fmt"
 	"math"
 	"reflect"
+	"strconv"
 	"strings"
 	"time"
 	"unicode/utf8"
@@ -124,11 +125,21 @@ func runC18(r *run) {
 		// numbers at and beyond the limits of int64, and tiny ones, through every numeric filter
 		bigs := []*gval{gFloat("0.5"), gFloat("-0.5"), gFloat("0.000001"), gFloat("999999999999999.9"), gFloat("9223372036854775807.0"), gFloat("9223372036854775808.0"),
 			gFloat("-9223372036854775808.0"), gFloat("18446744073709551616.0"), gFloat("100000000000000000000.0"), gFloat("1000000000000000019884624838656.0"),
-			gFloat("-1000000000000000019884624838656.0"), gInt(9223372036854775807), gInt(-9223372036854775807), gStr("1e30"), gStr("9223372036854775808"), gStr("-1e19"), gStr("1.5e3")}
+			gFloat("-1000000000000000019884624838656.0"), gInt(9223372036854775807), gInt(-9223372036854775807), gStr("1e30"), gStr("9223372036854775808"), gStr("-1e19"), gStr("1.5e3"),
+			gStr("010"), gStr("-0123"), gStr("0017"), gStr("08"), gStr("007"), gStr("0x10"), gStr("0X1f"), gStr("0b11"), gStr("0o17"), gStr("1_000"), gStr("+5"), gStr("00"), gStr("-0"), gStr("0_1")}
 		for _, n := range []string{"floatformat", "integer", "float", "add", "divisibleby", "get_digit", "pluralize", "filesizeformat", "yesno", "stringformat", "length", "default", "center", "widthratio"} {
 			for _, v := range bigs {
 				for _, pr := range []*gval{gNil(), gInt(0), gInt(-2), gInt(3), gInt(1), gStr("x"), gStr("-2"), gFloat("1.5")} {
 					f(n, v, pr)
+				}
+			}
+		}
+		// numbers given as text - zero-padded, with base prefixes, with separators - as the argument
+		// of every filter that takes a width, a position or a divisor
+		for _, n := range []string{"center", "ljust", "rjust", "get_digit", "divisibleby", "length_is", "truncatechars", "truncatewords", "wordwrap", "add", "floatformat", "slice"} {
+			for _, v := range []*gval{gStr("abcdefghijklmnop qrs tuv wx yz ab cd ef gh ij"), gInt(1234567890), gInt(16), gInt(8)} {
+				for _, pr := range []string{"010", "-0123", "0017", "08", "007", "0x10", "0b11", "0o17", "1_0", "+5", "00", "012:014", "0x2:0x4"} {
+					f(n, v, gStr(pr))
 				}
 			}
 		}
@@ -559,6 +570,27 @@ func oracleC18(name string, v, p *gval, out *pongo2.Value) string {
 				return "divisibleby is wrong"
 			}
 		}
+	case "get_digit":
+		// the digit at position p counted from the right of the text of the input; a position
+		// that holds no digit (none at all, a sign, a letter) gives the input itself
+		if (v.kind == 'i' || v.kind == 's') && p.kind == 'i' {
+			text := v.txt
+			if v.kind == 'i' {
+				text = fmt.Sprint(v.i)
+			}
+			digit := -1
+			if p.i >= 1 && p.i <= len(text) {
+				if ch := text[len(text)-p.i]; ch >= '0' && ch <= '9' {
+					digit = int(ch - '0')
+				}
+			}
+			if digit >= 0 && !(out.IsInteger() && out.Integer() == digit) {
+				return "get_digit does not give the digit at that position"
+			}
+			if digit < 0 && valueDescr(out) != v.descr() {
+				return "get_digit does not hand back the input where the position holds no digit"
+			}
+		}
 	case "add":
 		if v.kind == 'i' && p.kind == 'i' && valueDescr(out) != gInt(v.i+p.i).descr() {
 			return "add does not add integers"
@@ -600,6 +632,26 @@ func oracleC18(name string, v, p *gval, out *pongo2.Value) string {
 	case "integer":
 		if v.kind == 'i' && valueDescr(out) != v.descr() {
 			return "integer changed an integer"
+		}
+		if v.kind == 's' {
+			// decimal text (optional sign, digits, leading zeros allowed) reads as that decimal number;
+			// text that is not a number at all (letters, base prefixes) reads as 0; digit separators as in 1_000 are accepted like Python does
+			t := strings.TrimPrefix(strings.TrimPrefix(v.txt, "-"), "+")
+			allDigits := t != "" && len(t) <= 18 && strings.Trim(t, "0123456789") == ""
+			if allDigits {
+				want, _ := strconv.ParseInt(strings.TrimLeft(t, "0")+"", 10, 64)
+				if strings.TrimLeft(t, "0") == "" {
+					want = 0
+				}
+				if strings.HasPrefix(v.txt, "-") {
+					want = -want
+				}
+				if !out.IsInteger() || int64(out.Integer()) != want {
+					return "integer does not read decimal text as the decimal number it spells"
+				}
+			} else if strings.ContainsAny(t, "xXoObB") && strings.Trim(t, "0123456789xXoObB") == "" && !(out.IsInteger() && out.Integer() == 0) {
+				return "integer read text that is not a decimal number as a number"
+			}
 		}
 	case "capfirst":
 		if v.kind == 's' && utf8.ValidString(v.txt) && v.txt != "" {
